@@ -387,6 +387,14 @@ func (u *Unit) unleakedLocals(fr *Frame) []Term {
 	var out []Term
 	for f := fr; f != nil; f = f.Parent {
 		for v, val := range f.Vals {
+			if fv, isFV := v.(*ssa.FreeVar); isFV && val.Cell == nil && val.Tuple == nil {
+				// a captured variable that is assigned exactly once (its initialisation in
+				// the enclosing function) cannot change any more
+				if u.P.captureImmutable(fv) {
+					out = append(out, val.T)
+				}
+				continue
+			}
 			a, ok := v.(*ssa.Alloc)
 			if !ok || val.Cell != nil {
 				continue
@@ -787,6 +795,10 @@ func (u *Unit) applyContract(st *State, fr *Frame, site ssa.Instruction, callee 
 	}
 	// frame
 	u.applyModifies(st, fr, site, ct, env, trusted, name)
+	if !trusted || contractHasClause(ct, "chan_effects") {
+		// an in-repo callee may send / receive / close on channels it can reach
+		u.havocChans(st)
+	}
 	// results
 	rts := resultTypes(sig)
 	var res []Term
@@ -1654,4 +1666,102 @@ func mentionsCallLog(x Expr) bool {
 		return false
 	}
 	return false
+}
+
+func contractHasClause(ct *Contract, kind string) bool {
+	for _, cl := range ct.Clauses {
+		if cl.Kind == kind {
+			return true
+		}
+	}
+	return false
+}
+
+// captureImmutable: the variable captured as fv is stored to exactly once in the
+// whole enclosing function tree.
+func (p *Prog) captureImmutable(fv *ssa.FreeVar) bool {
+	p.mu.Lock()
+	defer p.mu.Unlock()
+	if p.capImm == nil {
+		p.capImm = map[*ssa.FreeVar]bool{}
+	}
+	if v, ok := p.capImm[fv]; ok {
+		return v
+	}
+	res := false
+	// find the Alloc behind the free variable
+	var origin func(fv *ssa.FreeVar, depth int) *ssa.Alloc
+	origin = func(fv *ssa.FreeVar, depth int) *ssa.Alloc {
+		fn := fv.Parent()
+		parent := fn.Parent()
+		if parent == nil || depth > 5 {
+			return nil
+		}
+		idx := -1
+		for i, x := range fn.FreeVars {
+			if x == fv {
+				idx = i
+			}
+		}
+		for _, b := range parent.Blocks {
+			for _, in := range b.Instrs {
+				if mc, ok := in.(*ssa.MakeClosure); ok && mc.Fn == ssa.Value(fn) && idx >= 0 && idx < len(mc.Bindings) {
+					switch bv := mc.Bindings[idx].(type) {
+					case *ssa.Alloc:
+						return bv
+					case *ssa.FreeVar:
+						return origin(bv, depth+1)
+					}
+				}
+			}
+		}
+		return nil
+	}
+	a := origin(fv, 0)
+	if a != nil {
+		stores := 0
+		var count func(f *ssa.Function, target ssa.Value)
+		count = func(f *ssa.Function, target ssa.Value) {
+			for _, b := range f.Blocks {
+				for _, in := range b.Instrs {
+					switch x := in.(type) {
+					case *ssa.Store:
+						root := x.Addr
+						for {
+							if fa, ok := root.(*ssa.FieldAddr); ok {
+								root = fa.X
+								continue
+							}
+							if ia, ok := root.(*ssa.IndexAddr); ok {
+								root = ia.X
+								continue
+							}
+							break
+						}
+						if root == target {
+							stores++
+						}
+					case *ssa.MakeClosure:
+						cf := x.Fn.(*ssa.Function)
+						for i, bd := range x.Bindings {
+							if bd == target && i < len(cf.FreeVars) {
+								count(cf, cf.FreeVars[i])
+							}
+						}
+					case *ssa.Call:
+						// the address passed to a call: could be written there
+						for _, arg := range x.Call.Args {
+							if arg == target {
+								stores += 2
+							}
+						}
+					}
+				}
+			}
+		}
+		count(a.Parent(), a)
+		res = stores <= 1
+	}
+	p.capImm[fv] = res
+	return res
 }
